@@ -32,7 +32,7 @@ def main():
     R.extra["programs"] = R.counters.get("programs_validated", 0)
     R.extra["disagreements_checked"] = R.counters.get("comparisons", 0)
     R.assumptions = ["decoders in vf/decode/snarkjs.py follow the iden3 r1cs v1 / wtns v2 layout; nLabels=0 and nPrvIn=0 in the header are not counts of file content (DESIGN.md 6.6)"]
-    return R.finish(require_counters=("programs_validated", "comparisons", "decoded_constraints", "scripts_validated", "hostile_values_seen"))
+    return R.finish(require_counters=("programs_validated", "comparisons", "decoded_constraints", "scripts_validated", "hostile_values_seen", "second_prove_validated"))
 
 
 def validate(R, snap, cwd, det, klass):
@@ -162,6 +162,23 @@ def worker(job):
         finally:
             os.chdir(home)
             shutil.rmtree(wd, ignore_errors=True)
+        if n % 4 == 0:
+            # proving is not a one-shot: trace some more in the same process and prove again
+            from pysnark.runtime import PrivVal, PubVal
+            a = PubVal(rnd.randint(-9, 9))
+            b = PrivVal(rnd.randint(-9, 9))
+            (a * b + a).val()
+            snap2 = realrun.snapshot(rt)
+            wd = tempfile.mkdtemp(prefix="c10b-", dir=home)
+            try:
+                os.chdir(wd)
+                rt.backend.prove()
+                os.chdir(home)
+                validate(R, snap2, wd, dict(src=src + "# then: a = PubVal(..); b = PrivVal(..); (a*b+a).val(); prove() again", inputs=inputs, second_prove=True), klass)
+                R.count("second_prove_validated")
+            finally:
+                os.chdir(home)
+                shutil.rmtree(wd, ignore_errors=True)
         R.count("programs_validated")
         R.case(cell="%s|%s" % (klass, "+".join(sorted(classes)) or "plain"), key=(src, tuple(inputs)))
         R.sample(dict(src=src, inputs=inputs, classes=sorted(classes), constraints=len(snap["constraints"]),
